@@ -253,7 +253,17 @@ def draw_culture_string(dec, supported):
     return None, 'none'
 
 
+QUICK_STEP_CAP = 1_500_000
+
+
 def gen_plan(prop, run_seed, tier, ctx):
+    """gen_plan_body + the per-run step budget (recorded in the plan, so a replay stops tracing at the same step)."""
+    plan = gen_plan_body(prop, run_seed, tier, ctx)
+    plan['step_cap'] = min(ctx.get('step_cap', 5_000_000), QUICK_STEP_CAP) if tier == 'quick' else ctx.get('step_cap', 5_000_000)
+    return plan
+
+
+def gen_plan_body(prop, run_seed, tier, ctx):
     """-> plan dict: clients with concrete ops, scheduler parameters, fault plan. Pure function of its arguments."""
     dec = Decider(run_seed)
     pool, groups = ctx['pool'], ctx['groups']
@@ -589,7 +599,7 @@ def execute_plan(prop, plan, env, recorded=None):
             client.fault_at = -2
             client.pending_ctor_offset = f['step']
     policy.on_op_start = on_op_start
-    sched = baton.Baton(clients, policy, step_cap=ctx.get('step_cap', 5_000_000), hang_s=ctx.get('hang_s', 300))
+    sched = baton.Baton(clients, policy, step_cap=plan.get('step_cap') or ctx.get('step_cap', 5_000_000), hang_s=ctx.get('hang_s', 300))
     env.sched = sched
     barrier.STATE['sched'] = sched
     from . import simlock
@@ -782,6 +792,8 @@ def c17_dt_focus(bdec, registered_dt):
 
 
 def run_batch(job):
+    import time as _time
+    _t0 = _time.time()
     prop, seed, tier = job['prop'], job['seed'], job['tier']
     ctx = load_ctx(job)
     # per-batch date-time focus (constructions cost seconds): drawn from the seed, recorded in the report
@@ -807,10 +819,13 @@ def run_batch(job):
            'swallowed_abort': 0, 'dt_focus': sorted(ctx['dt_focus']), 'barrier_classes': env.n_barrier_classes,
            'sched_kinds': {}, 'culture_classes': {}, 'get_outcomes': {}, 'observed_steps': {}, 'boot_containers': env.n_boot_containers, 'long_uptime_batch': int(bool(ctx['no_restart'])), 'process_tables_instrumented': env.n_tables}
     est = ctx['step_estimate']
+    slow = []
     for idx in range(job['first'], job['first'] + job['count']):
         run_seed = derive_seed(seed, prop, idx)
         plan = gen_plan(prop, run_seed, tier, ctx)
+        _t1 = _time.time()
         record, violations = execute_plan(prop, plan, env)
+        slow.append([round(_time.time() - _t1, 1), idx, 'burst' if plan.get('burst') else 'sweep' if plan.get('sweep') else '%d-clients' % len(plan['clients']), record['steps']])
         rep['runs'] += 1
         rep['steps'] += record['steps']
         rep['switches'] += len(record['switches'])
@@ -877,6 +892,8 @@ def run_batch(job):
         if len(rep['violations']) >= 4:
             break
     rep['barrier_sites'] = dict(barrier.STATE['sites'])
+    rep['batch_wall_s'] = round(_time.time() - _t0, 1)
+    rep['slowest_runs'] = sorted(slow, reverse=True)[:3]
     rep['process_tables_reset_by_restart'] = RESTORED['n']
     return rep
 
